@@ -2,6 +2,7 @@ package harness
 
 import (
 	"encoding/hex"
+	"encoding/json"
 	"fmt"
 	"math/rand/v2"
 	"strings"
@@ -392,5 +393,253 @@ func GenC01(seed uint64) *Plan {
 		p.Content.Events = append(p.Content.Events, EventSpec{Event: ev, Decoy: true})
 	}
 	g.transientFaults(p)
+	return p
+}
+
+// chainFaults enables chain growth and reorgs.
+func (g *G) reorgFaults(p *Plan, maxDepth int) {
+	f := &p.Faults
+	f.ReorgPerMille = g.pickInt([]int{5, 15, 30})
+	f.MaxReorgDepth = maxDepth
+	f.MaxReorgs = g.between(1, 5)
+	f.MidBatchPM = g.pickInt([]int{0, 50, 200})
+	if f.GrowPerMille == 0 {
+		f.GrowPerMille = 20
+	}
+	if f.MaxGrow < 10 {
+		f.MaxGrow = 25
+	}
+}
+
+// hashedDecl forces a declaration whose data plan includes block hashes: it
+// selects block_time, which only eth_getBlockByNumber supplies.
+func (g *G) hashedDecl(d *model.Decl) {
+	for _, f := range d.Block {
+		if f.Name == "block_time" {
+			return
+		}
+	}
+	d.Block = append(d.Block, model.Field{Name: "block_time", Column: "block_time"})
+	d.Table.Columns = append(d.Table.Columns, model.Col{Name: "block_time", Type: "numeric"})
+}
+
+func (g *G) randomDecl(p *Plan, i int, table string, start, stop uint64, modes []int) *model.Decl {
+	sp := &p.Sources[0]
+	mode := model.ModeLog
+	r := g.R.IntN(100)
+	switch {
+	case r < modes[0]:
+		mode = model.ModeTx
+	case r < modes[0]+modes[1]:
+		mode = model.ModeTrace
+	}
+	o := DeclOpts{Mode: mode, MaxFields: 4, Addrs: p.Content.Addrs, AddrFilter: g.chance(40),
+		Event: EventOpts{MaxInputs: 5, AllowDynamic: true, AllowArray: true, AllowTuple: true, SafeIndexedSel: true, NoBoolArray: true}}
+	switch mode {
+	case model.ModeLog:
+		o.Fields = logSafeFields
+	case model.ModeTx:
+		o.Fields = txSafeFields
+	case model.ModeTrace:
+		o.Fields = traceSafeFields
+		p.Content.MinTx, p.Content.MinTraces = 1, 1
+	}
+	d := g.Decl(fmt.Sprintf("ig%d", i), table, sp.Name, start, stop, o)
+	if d.Event != nil {
+		p.Content.Events = append(p.Content.Events, EventSpec{Event: d.Event})
+		p.Content.Events = append(p.Content.Events, g.Decoys(d.Event)...)
+	}
+	return d
+}
+
+func (g *G) ensureEvents(p *Plan) {
+	if len(p.Content.Events) == 0 {
+		ev := g.Event("Noise", EventOpts{MaxInputs: 3})
+		p.Content.Events = append(p.Content.Events, EventSpec{Event: ev, Decoy: true})
+	}
+}
+
+// GenC03 — reorgs of any depth within the retained history, landing at
+// arbitrary scheduler steps (also inside batches), 1-3 integrations sharing
+// one source client, all batch sizes; every declaration selects block_time so
+// that its data plan includes block hashes.
+func GenC03(seed uint64) *Plan {
+	g := NewG(seed)
+	p := g.basePlan("C03", seed)
+	sp := &p.Sources[0]
+	nd := g.between(1, 3)
+	for i := 0; i < nd; i++ {
+		start := uint64(g.between(1, sp.InitLen-1))
+		d := g.randomDecl(p, i, fmt.Sprintf("t_ig%d", i), start, 0, []int{25, 0})
+		g.hashedDecl(d)
+		p.Decls = append(p.Decls, d)
+	}
+	g.ensureEvents(p)
+	if g.chance(50) {
+		g.transientFaults(p)
+	} else {
+		p.Faults.HealAt = g.between(150, 1000)
+		p.Faults.GrowPerMille = 30
+		p.Faults.MaxGrow = 30
+	}
+	g.reorgFaults(p, g.between(1, 6))
+	p.Checks["settle"] = true
+	return p
+}
+
+// GenC04 — 2-4 pairs: shared or separate tables, one or two sources, same or
+// different events and address filters; growth, reorgs, process crashes.
+func GenC04(seed uint64) *Plan {
+	g := NewG(seed)
+	p := g.basePlan("C04", seed)
+	if g.chance(40) {
+		s2 := p.Sources[0]
+		s2.Name = "s1"
+		s2.ChainID = uint64(g.between(1, 9999))
+		s2.Batch, s2.Conc = g.between(1, 8), g.between(1, 3)
+		if s2.Batch < s2.Conc {
+			s2.Batch, s2.Conc = s2.Conc, s2.Batch
+		}
+		s2.InitLen = g.between(12, 40)
+		p.Sources = append(p.Sources, s2)
+	}
+	nd := g.between(2, 3)
+	var first *model.Decl
+	for i := 0; i < nd; i++ {
+		src := p.Sources[g.R.IntN(len(p.Sources))]
+		start := uint64(g.between(1, src.InitLen-1))
+		var d *model.Decl
+		if first != nil && g.chance(50) {
+			// same table, same shape, different name (and maybe another address filter)
+			d = cloneDecl(first)
+			d.Name = fmt.Sprintf("ig%d", i)
+			d.Sources = []model.SrcRef{{Name: src.Name, Start: start}}
+			if g.chance(50) {
+				for k := range d.Block {
+					if d.Block[k].Name == "log_addr" && d.Block[k].Filter != nil {
+						d.Block[k].Filter = &model.Filter{Op: "contains", Arg: []string{p.Content.Addrs[g.R.IntN(len(p.Content.Addrs))]}}
+					}
+				}
+			}
+		} else {
+			d = g.randomDecl(p, i, fmt.Sprintf("t_ig%d", i), start, 0, []int{25, 0})
+			d.Sources[0].Name = src.Name
+			if first == nil {
+				first = d
+			}
+		}
+		if g.chance(60) {
+			g.hashedDecl(d)
+		}
+		// an integration may run on both sources
+		if len(p.Sources) > 1 && g.chance(30) {
+			other := p.Sources[0]
+			if other.Name == d.Sources[0].Name {
+				other = p.Sources[1]
+			}
+			d.Sources = append(d.Sources, model.SrcRef{Name: other.Name, Start: uint64(g.between(1, other.InitLen-1))})
+		}
+		p.Decls = append(p.Decls, d)
+	}
+	g.ensureEvents(p)
+	g.transientFaults(p)
+	if g.chance(60) {
+		g.reorgFaults(p, g.between(1, 4))
+		// reorg workloads need hashed plans everywhere, otherwise convergence is outside the property
+		for _, d := range p.Decls {
+			g.hashedDecl(d)
+		}
+		p.Checks["settle"] = true
+	}
+	p.Faults.CrashPerMille = g.pickInt([]int{0, 3, 8})
+	return p
+}
+
+func cloneDecl(d *model.Decl) *model.Decl {
+	b, _ := json.Marshal(d)
+	var n model.Decl
+	json.Unmarshal(b, &n)
+	return &n
+}
+
+// GenC02x — exploration part of C02: random multi-fault sequences including
+// process crashes and lost acknowledgements, on growth and reorg histories.
+func GenC02x(seed uint64) *Plan {
+	g := NewG(seed)
+	p := g.basePlan("C02", seed)
+	sp := &p.Sources[0]
+	nd := g.between(1, 2)
+	for i := 0; i < nd; i++ {
+		start := uint64(g.between(1, sp.InitLen-1))
+		d := g.randomDecl(p, i, fmt.Sprintf("t_ig%d", i), start, 0, []int{25, 10})
+		p.Decls = append(p.Decls, d)
+	}
+	g.ensureEvents(p)
+	g.transientFaults(p)
+	p.Faults.PGPerMille = g.between(20, 150)
+	p.Faults.LostAck = true
+	p.Faults.CrashPerMille = g.pickInt([]int{3, 8, 15})
+	if g.chance(50) {
+		for _, d := range p.Decls {
+			g.hashedDecl(d)
+		}
+		g.reorgFaults(p, g.between(1, 4))
+		p.Checks["settle"] = true
+	}
+	return p
+}
+
+// GenC06 — start/stop/resume matrix relative to the head.
+func GenC06(seed uint64) *Plan {
+	g := NewG(seed)
+	p := g.basePlan("C06", seed)
+	sp := &p.Sources[0]
+	sp.InitLen = g.between(10, 30)
+	head := sp.InitLen - 1
+	var start, stop uint64
+	switch g.R.IntN(6) {
+	case 0: // begin at head
+		start = 0
+	case 1: // before head
+		start = uint64(g.between(1, head-1))
+	case 2: // at head
+		start = uint64(head)
+	case 3: // just after head (start-1 == head exists)
+		start = uint64(head + 1)
+	default:
+		start = uint64(g.between(1, head))
+	}
+	switch g.R.IntN(5) {
+	case 0:
+		stop = 0
+	case 1: // stop == start
+		stop = start
+	case 2: // stop before head
+		if start > 0 && int(start) < head {
+			stop = uint64(g.between(int(start), head))
+		}
+	case 3: // stop after head (reached through growth)
+		stop = uint64(head + g.between(1, 8))
+	default:
+		if start > 0 {
+			stop = start + uint64(g.between(0, 2*sp.Batch))
+		}
+	}
+	if start == 0 && stop > 0 && stop < uint64(head) {
+		stop = uint64(head + g.between(0, 6))
+	}
+	d := g.randomDecl(p, 0, "t_ig0", start, stop, []int{30, 0})
+	p.Decls = append(p.Decls, d)
+	g.ensureEvents(p)
+	p.Faults.HealAt = g.between(100, 600)
+	p.Faults.GrowPerMille = g.pickInt([]int{0, 30, 80})
+	p.Faults.MaxGrow = g.between(0, 20)
+	p.Faults.CrashPerMille = g.pickInt([]int{0, 5, 15})
+	if g.chance(40) {
+		p.Faults.PGPerMille = g.between(10, 60)
+		p.Faults.HTTPPerMille = g.between(10, 60)
+		p.Faults.HTTPKinds = 1<<hfConnErr | 1<<hfStatus | 1<<hfRPCError
+	}
+	p.Checks["range"] = true
 	return p
 }
